@@ -36,6 +36,7 @@ fn replace_once(s: &str, from: &str, to: &str, what: &str, problems: &mut Vec<St
 
 fn main() {
     let root = repo_root();
+    println!("cargo:rustc-env=VERIF_REPO_ROOT={}", root);
     let src_path = format!("{}/src/bin/server_persistent.rs", root);
     println!("cargo:rerun-if-changed={}", src_path);
     println!("cargo:rerun-if-changed=build.rs");
